@@ -1,5 +1,137 @@
-(* placeholder while the pipeline is brought up *)
-From MM Require Import Base.Num Base.GEComb.
-Theorem C03_placeholder : forall n, C n 0 = 1%Z.
-Proof. exact C_n0. Qed.
-Print Assumptions C03_placeholder.
+(* Properties/C03.v — Mann-Whitney laws at every size: errors, invariance, swap, ranges, approximation.
+   ONLY statements; each is closed by a lemma from Proofs/UtestLaws.v (Proofs/Utest.v, Proofs/UtestP.v).
+   The model (Model/Utest.v) is generic in the value type and its three-way comparison, assumed to be a
+   total preorder; the laws that identify the sorted pool additionally assume that values comparing
+   equal are the same value ([eq_is_identity]: true of Z, and of float64 values decoded exactly, where
+   +0 and -0 are the same 0).  Purity (arguments unmodified, limits restored) is an observable of the
+   correspondence check (flag per run), not a theorem: the model is a pure function. *)
+From Coq Require Import List ZArith QArith Permutation Lia.
+From MM Require Import Base.Num Base.GEComb Base.GESort Spec.Ucount Model.GEChoose Model.Udist Model.Utest
+  Proofs.Utest Proofs.UtestP Proofs.UtestLaws.
+Import ListNotations.
+Local Open Scope Z_scope.
+
+Definition total_preorder {A} (cmp : A -> A -> comparison) : Prop :=
+  (forall a, cmp a a = Eq) /\ (forall a b, cmp b a = CompOpp (cmp a b)) /\
+  (forall a b c, cmp a b <> Gt -> cmp b c <> Gt -> cmp a c <> Gt).
+Definition eq_is_identity {A} (cmp : A -> A -> comparison) : Prop := forall a b, cmp a b = Eq -> a = b.
+
+(* ErrSampleSize exactly when a sample is empty (any limits, any alternative) *)
+Theorem C03_err_size_iff : forall {A} (cmp : A -> A -> comparison) cdf EL TL x1 x2 alt,
+  mw_test cmp cdf EL TL x1 x2 alt = MWErrSize <-> (x1 = [] \/ x2 = []).
+Proof. exact @mw_err_size_iff. Qed.
+Print Assumptions C03_err_size_iff.
+
+(* ErrSamplesEqual exactly when all pooled values are equal — in the exact branch (one tie group) and in
+   the normal branch (sigma = 0) alike *)
+Theorem C03_err_equal_iff : forall {A} (cmp : A -> A -> comparison), total_preorder cmp ->
+  forall cdf EL TL (x1 x2 : list A) alt, x1 <> [] -> x2 <> [] ->
+  (mw_test cmp cdf EL TL x1 x2 alt = MWErrEqual <-> all_equal cmp (x1 ++ x2)).
+Proof. intros A cmp (Hr & Ha & Ht). exact (mw_err_equal_iff cmp Hr Ha Ht). Qed.
+Print Assumptions C03_err_equal_iff.
+(* sigma_U^2 of the statement is 0 exactly for one tie group and positive otherwise *)
+Theorem C03_sigma2_zero_iff : forall n1 n2 T, (1 <= n1)%nat -> (1 <= n2)%nat -> Forall (fun t => (1 <= t)%nat) T ->
+  lsum T = (n1 + n2)%nat -> ((sigma2 n1 n2 T == 0)%Q <-> length T = 1%nat) /\ (0 <= sigma2 n1 n2 T)%Q.
+Proof. exact sigma2_zero_iff. Qed.
+Print Assumptions C03_sigma2_zero_iff.
+
+(* the result is unchanged by reordering either sample *)
+Theorem C03_perm_invariant : forall {A} (cmp : A -> A -> comparison), total_preorder cmp -> eq_is_identity cmp ->
+  forall cdf EL TL (x1 x1' x2 x2' : list A) alt, Permutation x1 x1' -> Permutation x2 x2' ->
+  mw_test cmp cdf EL TL x1' x2' alt = mw_test cmp cdf EL TL x1 x2 alt.
+Proof. intros A cmp (Hr & Ha & Ht) He. exact (mw_perm_invariant cmp Ha Ht He). Qed.
+Print Assumptions C03_perm_invariant.
+
+(* ... and by applying one strictly increasing map to all values (between any two value types) *)
+Theorem C03_mono_invariant : forall {A B} (cmpA : A -> A -> comparison) (cmpB : B -> B -> comparison) (f : A -> B),
+  (forall a b, cmpB (f a) (f b) = cmpA a b) ->
+  forall cdf EL TL (x1 x2 : list A) alt,
+  mw_test cmpB cdf EL TL (map f x1) (map f x2) alt = mw_test cmpA cdf EL TL x1 x2 alt.
+Proof. exact @mw_mono_invariant. Qed.
+Print Assumptions C03_mono_invariant.
+
+(* swapping the samples: N1 <-> N2, U -> N1*N2 - U, same tie vector *)
+Theorem C03_swap_stat : forall {A} (cmp : A -> A -> comparison), total_preorder cmp -> eq_is_identity cmp ->
+  forall x1 x2 : list A, let s := mw_stat cmp x1 x2 in
+  mw_stat cmp x2 x1 = mkStat (ms_n2 s) (ms_n1 s) (ms_T s) (ms_ties s)
+                             (2 * Z.of_nat (ms_n1 s) * Z.of_nat (ms_n2 s) - ms_twoU s).
+Proof. intros A cmp (Hr & Ha & Ht) He. exact (mw_swap_stat cmp Hr Ha Ht He). Qed.
+Print Assumptions C03_swap_stat.
+(* ... and exchanges the LocationLess and LocationGreater p-values (exact branch; via C02's mirror law) *)
+Theorem C03_swap_less_greater : forall {A} (cmp : A -> A -> comparison), total_preorder cmp -> eq_is_identity cmp ->
+  forall x1 x2 : list A, x1 <> [] -> x2 <> [] ->
+  let s := mw_stat cmp x1 x2 in let n1 := length x1 in let n2 := length x2 in
+  length (ms_T s) <> 1%nat ->
+  (mw_exact_p (udist_cdf n2 n1 (ms_T s)) n2 n1 (2 * Z.of_nat n1 * Z.of_nat n2 - ms_twoU s) (-1) ==
+   mw_exact_p (udist_cdf n1 n2 (ms_T s)) n1 n2 (ms_twoU s) 1)%Q /\
+  (mw_exact_p (udist_cdf n2 n1 (ms_T s)) n2 n1 (2 * Z.of_nat n1 * Z.of_nat n2 - ms_twoU s) 1 ==
+   mw_exact_p (udist_cdf n1 n2 (ms_T s)) n1 n2 (ms_twoU s) (-1))%Q.
+Proof.
+  intros A cmp (Hr & Ha & Ht) He x1 x2 H1 H2 s n1 n2 HK.
+  exact (conj (mw_swap_less_greater cmp Hr Ha Ht He x1 x2 H1 H2 HK) (mw_swap_greater_less cmp Hr Ha Ht He x1 x2 H1 H2 HK)).
+Qed.
+Print Assumptions C03_swap_less_greater.
+(* normal branch under the swap: same sigma^2, negated numerator with Less/Greater exchanged; hence for every
+   Phi with Phi(-z) = 1 - Phi(z) the one-sided p-values are exchanged and the two-sided one is preserved *)
+Theorem C03_swap_sigma2 : forall n1 n2 T, sigma2 n2 n1 T = sigma2 n1 n2 T.
+Proof. exact sigma2_swap. Qed.
+Print Assumptions C03_swap_sigma2.
+Theorem C03_swap_numer : forall n1 n2 tu alt, alt = -1 \/ alt = 0 \/ alt = 1 ->
+  numer2 n2 n1 (2 * Z.of_nat n1 * Z.of_nat n2 - tu) alt = - numer2 n1 n2 tu (- alt).
+Proof. exact numer2_swap. Qed.
+Print Assumptions C03_swap_numer.
+Theorem C03_approx_swap : forall (phi_z phi_mz : Q) alt, (phi_mz == 1 - phi_z)%Q -> alt = -1 \/ alt = 0 \/ alt = 1 ->
+  (mw_approx_p phi_mz alt == mw_approx_p phi_z (- alt))%Q.
+Proof. exact mw_approx_swap. Qed.
+Print Assumptions C03_approx_swap.
+Theorem C03_use_exact_swap : forall ties n1 n2 EL TL, use_exact ties n2 n1 EL TL = use_exact ties n1 n2 EL TL.
+Proof. exact use_exact_swap. Qed.
+Print Assumptions C03_use_exact_swap.
+
+(* 0 <= P <= 1: one-sided exact tails; approximate p-values for every Phi with values in [0,1] *)
+Theorem C03_exact_P_range : forall {A} (cmp : A -> A -> comparison), total_preorder cmp ->
+  forall x1 x2 : list A, x1 <> [] -> x2 <> [] -> let s := mw_stat cmp x1 x2 in length (ms_T s) <> 1%nat ->
+  forall alt, alt = -1 \/ alt = 1 ->
+  (0 <= mw_exact_p (udist_cdf (length x1) (length x2) (ms_T s)) (length x1) (length x2) (ms_twoU s) alt <= 1)%Q.
+Proof. intros A cmp (Hr & Ha & Ht). exact (mw_exact_P_range cmp Hr Ha Ht). Qed.
+Print Assumptions C03_exact_P_range.
+Theorem C03_approx_P_range : forall phi alt, (0 <= phi <= 1)%Q -> (0 <= mw_approx_p phi alt <= 1)%Q.
+Proof. exact mw_approx_P_range. Qed.
+Print Assumptions C03_approx_P_range.
+
+(* above the limits: N1, N2, the pair-count U, and the normal approximation of the statement — mean N1*N2/2,
+   variance N1*N2/12*((N+1) - sum(t^3-t)/(N(N-1))) (Model.Utest.sigma2, positive here), continuity correction *)
+Theorem C03_approx_result : forall {A} (cmp : A -> A -> comparison), total_preorder cmp ->
+  forall (cdf : nat -> nat -> list nat -> Q -> Q) EL TL (x1 x2 : list A) alt, x1 <> [] -> x2 <> [] ->
+  let s := mw_stat cmp x1 x2 in
+  use_exact (ms_ties s) (length x1) (length x2) EL TL = false -> length (ms_T s) <> 1%nat ->
+  mw_test cmp cdf EL TL x1 x2 alt =
+  MWApprox (length x1) (length x2) (twoU_pairs cmp x1 x2)
+           (numer2 (length x1) (length x2) (twoU_pairs cmp x1 x2) alt) (sigma2 (length x1) (length x2) (ms_T s))
+  /\ (0 < sigma2 (length x1) (length x2) (ms_T s))%Q.
+Proof. intros A cmp (Hr & Ha & Ht). exact (mw_approx_result cmp Hr Ha Ht). Qed.
+Print Assumptions C03_approx_result.
+Theorem C03_continuity_correction : forall n1 n2 tu,
+  let d := tu - Z.of_nat (n1 * n2) in
+  numer2 n1 n2 tu (-1) = d + 1 /\ numer2 n1 n2 tu 1 = d - 1 /\
+  Z.abs (numer2 n1 n2 tu 0) = Z.max 0 (Z.abs d - 1) /\ (d <> 0 -> Z.sgn (numer2 n1 n2 tu 0) = Z.sgn d \/ numer2 n1 n2 tu 0 = 0).
+Proof. exact numer2_textbook. Qed.
+Print Assumptions C03_continuity_correction.
+
+(* ---------- non-vacuity ---------- *)
+Example C03_Z_instance : total_preorder Z.compare /\ eq_is_identity Z.compare.
+Proof. split; [exact (conj Zcmp_refl (conj Zcmp_antisym Zcmp_trans))|]. intros a b H. now apply Z.compare_eq. Qed.
+Example C03_mono_example : forall a b, Z.compare (3 * a - 7) (3 * b - 7) = Z.compare a b.
+Proof.
+  intros. destruct (Z.compare_spec a b); [subst; apply Z.compare_refl | apply Z.compare_lt_iff; lia | apply Z.compare_gt_iff; lia].
+Qed.
+(* both branches on the same data: default limits (exact) and limits (0,0) (normal approximation); swap *)
+Example C03_examples :
+  mw_test Z.compare udist_cdf 50 25 [1; 2; 2] [2; 3; 3; 3] (-1) = MWExact 3 4 2 (3 # 35) (3 # 35) /\
+  mw_test Z.compare udist_cdf 50 25 [2; 3; 3; 3] [1; 2; 2] 1 = MWExact 4 3 22 (3 # 35) (3 # 35) /\
+  mw_test Z.compare udist_cdf 0 0 [1; 2; 2] [2; 3; 3; 3] (-1) = MWApprox 3 4 2 (-9) (3456 # 504) /\
+  mw_test Z.compare udist_cdf 0 0 [2; 3; 3; 3] [1; 2; 2] 1 = MWApprox 4 3 22 9 (3456 # 504) /\
+  mw_test Z.compare udist_cdf 0 0 [4; 4] [4; 4; 4] 0 = MWErrEqual /\
+  mw_test Z.compare udist_cdf 50 25 [4; 4] [4; 4; 4] 0 = MWErrEqual /\
+  mw_test Z.compare udist_cdf 50 25 [] [4] 0 = MWErrSize.
+Proof. vm_compute. repeat split; reflexivity. Qed.
